@@ -26,7 +26,7 @@ RULE = ("(tool, argv, seed): every source of randomness -- random families (rand
 ASSUMPTIONS = ["hash seeds, working directories and address-space layouts are sampled, not enumerated",
                "stdout bytes (and saved files) are 'the output'; stderr is not compared",
                "the RNG tap replaces the class of random._inst and the module-level functions; it leaves the generated stream unchanged"]
-REQUIRED = ["process_groups_compared", "processes_spawned", "hashseed_random_runs", "cwd_outside_git_runs", "saved_files_compared",
+REQUIRED = ["process_groups_compared", "processes_spawned", "library_calls_compared_across_processes", "hashseed_random_runs", "cwd_outside_git_runs", "saved_files_compared",
             "inprocess_double_runs", "trace_runs", "trace_seed_events", "trace_draw_events", "library_double_calls", "seed_zero_cases",
             "negative_seed_cases", "big_seed_cases", "verbose_header_cases", "tool_cnfgen", "tool_pbgen", "tool_cnfshuffle",
             "graph_file_with_named_vertices"]
@@ -69,6 +69,11 @@ def corpus():
               ["kcolor", "3", "grid", "3", "3", "splitedges", "2", "addedges", "2"],
               ["tiling", "gnp", "7", ".4", "plantclique", "3", "addedges", "2", "splitedges", "1"],
               ["domset", "2", "complete", "4", "splitedges", "3", "addedges", "4"]]
+    # random bipartite graphs written out as the argument of a compression (built while the command line is parsed)
+    extra += [["php", "4", "3", "-T", "xorcomp", "glrd", "12", "6", "3"],
+              ["php", "4", "3", "-T", "majcomp", "glrp", "12", "5", ".5", "addedges", "2"],
+              ["count", "4", "2", "-T", "xorcomp", "glrm", "6", "4", "9", "plantbiclique", "2", "2"],
+              ["and", "3", "3", "-T", "majcomp", "regular", "6", "4", "2", "-T", "xorcomp", "glrd", "4", "3", "2"]]
     for t in extra:
         out.append(("cnfgen", t, ""))
     out.append(("pbgen", ["matching", "gnm", "8", "10", "addedges", "3", "splitedges", "2"], ""))
@@ -452,6 +457,72 @@ def case_library(ctx, rseed):
         twice("split_random_edges", split, gstate)
 
 
+LIB_SCRIPT = r"""
+import sys, json, hashlib
+sys.path.insert(0, %r)
+import cnfgen as g
+import cnfgen.graphs as cg
+def F(x): return [x.number_of_variables(), [list(c) for c in x]]
+def B(x): return [x.left_order(), x.right_order(), [list(e) for e in x.edges()]]
+def G(x): return [x.number_of_vertices(), sorted(sorted(e) for e in x.edges())]
+def addm(s):
+    H = cg.Graph(6); H.add_edge(1, 2); cg.add_random_missing_edges(H, 5, seed=s); return H
+def split(s):
+    H = cg.Graph.complete_graph(4); cg.split_random_edges(H, 3, seed=s); return H
+CALLS = {
+ "RandomKCNF": lambda s: F(g.RandomKCNF(3, 8, 12, seed=s)),
+ "RandomKXOR": lambda s: F(g.RandomKXOR(3, 8, 6, seed=s)),
+ "bipartite_random_left_regular": lambda s: B(cg.bipartite_random_left_regular(9, 11, 3, seed=s)),
+ "bipartite_random_regular": lambda s: B(cg.bipartite_random_regular(6, 4, 2, seed=s)),
+ "bipartite_random_m_edges": lambda s: B(cg.bipartite_random_m_edges(5, 5, 7, seed=s)),
+ "bipartite_random": lambda s: B(cg.bipartite_random(5, 6, .5, seed=s)),
+ "add_random_missing_edges": lambda s: G(addm(s)),
+ "split_random_edges": lambda s: G(split(s)),
+}
+SEEDS = [7, -3, 2 ** 70, 1.5, "cnfgen", "", "a longer seed with spaces", b"bytes", bytearray(b"ba"), True]
+out = {}
+for name, fn in sorted(CALLS.items()):
+    for s in SEEDS:
+        try:
+            v = fn(s)
+        except Exception as e:
+            v = "raised " + type(e).__name__
+        out[name + " seed=" + repr(s)] = hashlib.sha256(json.dumps(v).encode()).hexdigest()[:16]
+print(json.dumps(out))
+"""
+
+
+def case_library_processes(ctx, hashseeds):
+    """The library's generators called with the same seed argument (numbers, text, bytes) in several processes that
+    differ in their string-hash salt: the seed argument alone must determine the result."""
+    import json
+    import subprocess
+    import sys
+    from ..cliharness import REPO
+    runs = []
+    for hs in hashseeds:
+        e = dict(os.environ)
+        e.pop("PYTHONPATH", None)
+        e["PYTHONHASHSEED"] = hs
+        e["PYTHONPYCACHEPREFIX"] = os.path.join(tempfile.gettempdir(), "vmon-pycache-%d" % os.getuid())
+        p = subprocess.run([sys.executable, "-W", "ignore", "-c", LIB_SCRIPT % REPO], capture_output=True, env=e, timeout=300)
+        ctx.count("processes_spawned")
+        if p.returncode != 0:
+            raise RuntimeError("library script failed: " + p.stderr.decode("utf-8", "replace")[-400:])
+        runs.append((hs, json.loads(p.stdout.decode())))
+    base_hs, base = runs[0]
+    for hs, out in runs[1:]:
+        for key in sorted(base):
+            ctx.count("library_calls_compared_across_processes")
+            if out.get(key) != base[key]:
+                fn = key.split(" seed=")[0]
+                kind = "text" if ("'" in key.split(" seed=")[1] or '"' in key.split(" seed=")[1]) else "number"
+                ctx.violation("library-across-processes:%s:%s-seed" % (fn, kind),
+                              "%s gave different results in two processes (PYTHONHASHSEED=%s and %s)" % (key, base_hs, hs))
+    for key in sorted(base):
+        ctx.judged(("lib-proc", key), nontrivial=True, sample={"call": key, "hash seeds": list(hashseeds)})
+
+
 def workload(tier, seed):
     n = len(corpus())
     q = tier == "quick"
@@ -473,3 +544,4 @@ def workload(tier, seed):
         yield "inprocess", {"lo": lo, "hi": lo + 10, "seeds": [0, 7] if q else SEEDS + [7]}
     for i in range(2 if q else 12):
         yield "library", {"rseed": seed * 100 + i}
+    yield "library_processes", {"hashseeds": ["0", "1", "random"] if q else ["0", "1", "12345", "random", "random"]}
